@@ -19,7 +19,7 @@ MANIFEST = {
             'BTP-U codec, z3. Raw sockets / Ethernet framing are not involved.',
     'ref': '5 C20'}
 BOUNDS = {'quick': dict(hints='0..2', segments='<= 3 (more are cut)', permutations='n <= 3'),
-          'thorough': dict(hints='0..2', segments='<= 4', permutations='n <= 3')}
+          'thorough': dict(hints='0..2', segments='<= 4 and <= 6', permutations='n <= 5 (all 153 orders), duplicates of each segment at each later position (n = 3)')}
 ASSUMPTIONS = ['bundle length below 2^32 (the 4-octet length hint); frames are not corrupted',
                'portion stand-in semantics for discrete intervals']
 REQUIRED_CLASSES = {'all': ['codec', 'segmented', 'received']}
@@ -33,10 +33,19 @@ def cases(tier):
         for nh in (0, 1, 2):
             out.append(dict(kind='codec', msg=kind, hints=nh))
     out.append(dict(kind='send', k=3 if tier == 'quick' else 4))
-    for n in (1, 2, 3):
+    if tier != 'quick':
+        out.append(dict(kind='send', k=6))
+    for n in ((1, 2, 3) if tier == 'quick' else (1, 2, 3, 4, 5)):
         for perm in itertools.permutations(range(n)):
             out.append(dict(kind='recv', n=n, order=''.join(map(str, perm))))
     out.append(dict(kind='recv', n=2, order='010'))
+    if tier != 'quick':
+        # a duplicate of every segment at every later position (n = 3)
+        for d in range(3):
+            for pos in range(d + 1, 4):
+                order = [0, 1, 2]
+                order.insert(pos, d)
+                out.append(dict(kind='recv', n=3, order=''.join(map(str, order))))
     return out
 
 
